@@ -1299,6 +1299,55 @@ def plan_c12(tier, seed, rng):
     )
 
 
+def model_behaviours(work, rule, pess, n, depth, seed):
+    """behaviours of the store model, generated by TLC (simulation of
+    MddStoreGen): list of lists of call records with the model's predictions"""
+    cfg = os.path.join(V.SPEC, 'MddStoreGen_run_%s_%d.cfg' % (rule, int(pess)))
+    with open(cfg, 'w') as f:
+        f.write('SPECIFICATION GSpec\nCONSTANTS\n  H = 9\n  K = 3\n  S = 2\n  Rule = "%s"\n  Pess = %s\n  NSlots = 3\n  MaxCT = 3\n'
+                '  Bug = "none"\n  D = %d\nCHECK_DEADLOCK FALSE\n' % (rule, 'TRUE' if pess else 'FALSE', depth))
+    try:
+        rc, out = V.run_tlc('MddStoreGen.tla', cfg, os.path.join(work, 'md-gen-%s%d' % (rule, int(pess))), workers=1,
+                            extra=['-simulate', 'num=%d' % n, '-depth', str(depth + 2), '-seed', str(seed)], timeout=600)
+    finally:
+        os.remove(cfg)
+    beh = []
+    import re as _re
+    for m in _re.finditer(r'<<"BEHAVIOUR", "(.*)">>', out):
+        beh.append(json.loads(m.group(1).encode().decode('unicode_escape')))
+    if not beh:
+        raise Machinery('TLC generated no behaviour: ' + out[-1500:])
+    return beh
+
+
+def behaviour_script(beh, rule, pess, sto, mm):
+    S = Script()
+    d = S.dom([2, 2, 2])
+    f = S.forest(d, 'mtb_s', rule, sto=sto, mm=mm, dele=('P' if pess else 'O'))
+    slots = [S.new(f) for _ in range(3)]
+    for i, c in enumerate(beh):
+        a = c['a']
+        if a == 'build':
+            table_coll(S, slots[c['x'] - 1], f, 'mtb_s', c['f'], [2, 2, 2])
+        elif a == 'union':
+            S.add('bin UNION %d %d %d' % (slots[c['x'] - 1], slots[c['y'] - 1], slots[c['z'] - 1]))
+        elif a == 'assign':
+            S.add('asg %d %d' % (slots[c['x'] - 1], slots[c['y'] - 1]))
+        elif a == 'release':
+            S.add('attach %d -1' % slots[c['x'] - 1])
+            S.add('attach %d %d' % (slots[c['x'] - 1], f))
+        elif a == 'clearct':
+            S.add('clearct %d' % f)
+        elif a == 'rmstale':
+            S.add('rmstale')
+        for x in range(3):
+            S.add('expect %d %d' % (slots[x], c['after'][x]['nc']))
+        if i % 5 == 4:
+            S.add('snap %d' % f)
+    S.add('snap %d' % f)
+    return S.text()
+
+
 @plan('C01')
 def plan_c01(tier, seed, rng):
     scripts = []
@@ -1310,6 +1359,16 @@ def plan_c01(tier, seed, rng):
                 sizes = hist_shapes(rng, rel)
                 scripts.append(('k%03d' % n, c01_script(rng, sizes, kind, rule, 8 if tier == 'thorough' else 5)))
                 n += 1
+    # spec -> code: behaviours generated by TLC from the store model, with the
+    # model's prediction of every edge's function and node count after each call
+    gwork = os.path.join(VERIF, 'work', 'C01-gen-%s' % tier)
+    os.makedirs(gwork, exist_ok=True)
+    for (rule, pess) in [('F', False), ('Q', True)] + ([('F', True), ('Q', False)] if tier == 'thorough' else []):
+        behs = model_behaviours(gwork, rule, pess, 40 if tier == 'thorough' else 12, 14, seed)
+        for b in behs:
+            scripts.append(('g%03d_%s%d' % (n, rule, int(pess)), behaviour_script(b, rule, pess, rng.choice(STO), rng.choice(MMS))))
+            n += 1
+    shutil.rmtree(gwork, ignore_errors=True)
     # results of every other operation family must be canonical too: borrow a
     # seeded sample of the executions of the function-level plans (judged here
     # only for identity <=> function)
@@ -1319,7 +1378,7 @@ def plan_c01(tier, seed, rng):
         for (nm, text) in rng.sample(sub, min(k, len(sub))):
             scripts.append(('%s_%s' % (other, nm), text))
     return dict(
-        scripts=scripts, validators=[API, STORE], tags={'C01'},
+        scripts=scripts, validators=[API, STORE], tags={'C01', 'HELD'},
         mc=[('MddStore.tla', 'StoreMC_small.cfg', {})],
         rule='model: invariants Canonical and RootsCanonical of MddStore; implementation, per forest kind x rule: each target function is built along several '
              'paths - one collection, single minterms in shuffled order joined by the forest\'s join operation, algebraic rewrites that are identities in the '
